@@ -1220,8 +1220,13 @@ impl FunctionCompiler<'_> {
                             // this basically just reevaluates the current argument
                             // under the next parameter.
                             current_param = Some(next_param);
-                            actual_args
-                                .push(working_arg.take().expect("it should be Some(_) here"));
+                            // if no argument was given for this vararg parameter
+                            // (`f :: (a: ...i32, flag: bool)` called as `f(true)`)
+                            // it still gets an (empty) slice
+                            actual_args.push(working_arg.take().unwrap_or_else(|| ArgToCompile {
+                                values: Vec::new(),
+                                associated_param: param,
+                            }));
                         } else {
                             unreachable!("an error should have been reported");
                         }
